@@ -63,22 +63,20 @@ theorem filter_map_conv (kd : Kind) : ∀ (pl : List (FlowDecl × Flow)),
     simp only [sflows, pairsOf, List.map_cons, List.filter_cons] at ih ⊢
     cases h : p.1.kind == kd <;> simp [ih, conv, sflowOf]
 
-/-! ### system flows: the engine's wiring equals the chain when every group has at most one quota -/
+/-! ### system flows: the engine's wiring is the reference chain (after the fix F04e) -/
 
-theorem sysDeclsOfGroup_eq : ∀ (g : List Quota), g.length ≤ 1 →
-    sysDeclsOfGroup sysConns g = sysDeclsOfGroup chainConns g
+theorem sysChainFrom_eq : ∀ (ks : List String) (k : String), sysChainFrom k ks = chainFrom k ks
   | [], _ => rfl
-  | [q], _ => by
-    unfold sysDeclsOfGroup
-    cases hq : q.concurrent <;> simp [hq, sysConns, chainConns, chainFrom]
-  | _ :: _ :: _, h => by simp at h
+  | k' :: ks, k => by simp [sysChainFrom, chainFrom, sysChainFrom_eq ks k']
 
-theorem sysDecls_eq (qs : List Quota) (h : mergedGroup qs = false) :
-    sysDecls sysConns qs = sysDecls chainConns qs := by
-  unfold mergedGroup at h
-  simp only [Bool.or_eq_false_iff, decide_eq_false_iff_not, Nat.not_le] at h
-  unfold sysDecls
-  rw [sysDeclsOfGroup_eq _ (by omega), sysDeclsOfGroup_eq _ (by omega)]
+theorem sysConns_eq : sysConns = chainConns := by
+  funext ks
+  cases ks with
+  | nil => rfl
+  | cons k ks => simp [sysConns, chainConns, sysChainFrom_eq]
+
+theorem sysDecls_eq (qs : List Quota) : sysDecls sysConns qs = sysDecls chainConns qs := by
+  rw [sysConns_eq]
 
 theorem sysDeclsOfGroup_no_user (conns : List String → List Conn) (g : List Quota) :
     (sysDeclsOfGroup conns g).filter (·.kind == .user) = [] := by
@@ -96,55 +94,35 @@ theorem sysDecls_no_user (conns : List String → List Conn) (qs : List Quota) :
 /-! ### shape of the reference user loop -/
 
 theorem suserReq_shape (o : Oracle) (fuel : Nat) : ∀ fs : List SFlow,
-    ((suserReq o fuel fs).2.2.1.isSome = true → (suserReq o fuel fs).2.1 = none) ∧
-    ((suserReq o fuel fs).2.1 = none → (suserReq o fuel fs).2.2.2 = false) ∧
+    ((suserReq o fuel fs).2.2.isSome = true → (suserReq o fuel fs).2.1 = none) ∧
     (∀ sf k, (suserReq o fuel fs).2.1 = some (sf, k) → sf ∈ fs)
-  | [] => ⟨fun _ => rfl, fun _ => rfl, by simp [suserReq]⟩
+  | [] => ⟨fun _ => rfl, by simp [suserReq]⟩
   | f :: fs => by
     have ih := suserReq_shape o fuel fs
     unfold suserReq
     simp only
     split
-    · exact ⟨fun _ => rfl, fun _ => rfl, by simp⟩
+    · exact ⟨fun _ => rfl, by simp⟩
     · split
       · rename_i k hk
-        refine ⟨by simp, by simp, ?_⟩
+        refine ⟨by simp, ?_⟩
         intro sf k' h
         simp only [Option.some.injEq, Prod.mk.injEq] at h
         rw [← h.1]; exact List.mem_cons_self ..
-      · refine ⟨ih.1, ih.2.1, ?_⟩
+      · refine ⟨ih.1, ?_⟩
         intro sf k' h
-        exact List.mem_cons_of_mem _ (ih.2.2 sf k' h)
+        exact List.mem_cons_of_mem _ (ih.2 sf k' h)
 
 /-! ### unpacking the finding classifier -/
 
 theorem finding_none {s : STxn} (h : finding s = none) {sf : SFlow} {k : String}
-    (ha : s.answered = some (sf, k)) :
-    s.pending = false ∧ mentioned sf.res k = true ∧
-    (∀ t c, firstConn sf.res k = some (.proc t c) → (entry sf.res).isSome = true) ∧
-    (firstConn sf.res k = none → entry sf.res = none) := by
+    (ha : s.answered = some (sf, k)) : mentioned sf.res k = true := by
   unfold finding at h
   rw [ha] at h
   simp only at h
-  cases hp : s.pending with
-  | true => simp [hp] at h
-  | false =>
-    simp only [hp, Bool.false_eq_true, if_false] at h
-    cases hm : mentioned sf.res k with
-    | false => simp [hm] at h
-    | true =>
-      simp only [hm, Bool.not_true, Bool.false_eq_true, if_false] at h
-      refine ⟨rfl, rfl, ?_, ?_⟩
-      · intro t c hfc
-        rw [hfc] at h
-        cases he : entry sf.res with
-        | none => simp [he] at h
-        | some r => rfl
-      · intro hfc
-        rw [hfc] at h
-        cases he : entry sf.res with
-        | none => rfl
-        | some r => simp [he] at h
+  cases hm : mentioned sf.res k with
+  | false => simp [hm] at h
+  | true => rfl
 
 /-! ### names of user flows are unique -/
 
@@ -192,13 +170,12 @@ theorem selected_eq {l : Loaded} {pl : List (FlowDecl × Flow)} (h : l.flows = p
   rw [h, filter_map_kind, filter_map_kind, filter_map_kind]
 
 theorem specCfg_eq {c : Cfg} {order : List String} {pl : List (FlowDecl × Flow)}
-    (hmg : mergedGroup c.quotas = false)
     (h : pl.map (·.1) = sortBy order (c.flows.filter yamlOk) ++ sysDecls sysConns c.quotas) :
     specCfg c order =
       ⟨sflows (pairsOf .sysStart pl), sflows (pairsOf .user pl), sflows (pairsOf .sysEnd pl)⟩ := by
   unfold specCfg
   simp only
-  rw [← sysDecls_eq _ hmg, ← h]
+  rw [← sysDecls_eq, ← h]
   have e1 := filter_map_conv .sysStart pl
   have e2 := filter_map_conv .user pl
   have e3 := filter_map_conv .sysEnd pl
@@ -230,18 +207,17 @@ def SysQuiet (sc : SCfg) (o : Oracle) : Prop :=
 theorem noAnswer_of_quiet {sf : SFlow} {o : Oracle} (h : ∀ k, (o sf.name k .req).early = false) :
     NoAnswer sf o .req := fun k => by simp [h k]
 
-/-- **Transaction refinement** (all fuel values): outside the classes of the findings F04a–e the
+/-- **Transaction refinement** (all fuel values): outside the class of the open finding F04c the
     engine model's transaction equals the reference interpreter's. -/
 theorem txn_eq (c : Cfg) (order : List String) (l : Loaded) (o : Oracle) (d : Dir) (fuel : Nat)
     (hl : load c order = .ok l)
-    (hmg : mergedGroup c.quotas = false)
     (hq : SysQuiet (specCfg c order) o)
     (hf : finding (stxn (specCfg c order) o fuel d) = none) :
     (transaction l.selected o fuel d).trace = (stxn (specCfg c order) o fuel d).trace ∧
     (transaction l.selected o fuel d).err = (stxn (specCfg c order) o fuel d).err := by
   obtain ⟨pl, h1, h2, h3, hnd⟩ := load_pairs hl
   have hsel := selected_eq h2
-  have hspec := specCfg_eq hmg h1
+  have hspec := specCfg_eq h1
   rw [hspec] at hq hf ⊢
   rw [hsel]
   have hs := pairsOf_ok h3 .sysStart
@@ -273,53 +249,39 @@ theorem txn_eq (c : Cfg) (order : List String) (l : Loaded) (o : Oracle) (d : Di
     have hshape := suserReq_shape o fuel (sflows (pairsOf .user pl))
     -- the classifier speaks about the answer of the user loop whenever that loop was reached
     have hans : (sall o .req fuel (sflows (pairsOf .sysStart pl))).err = none →
-        (suserReq o fuel (sflows (pairsOf .user pl))).2.2.1 = none →
+        (suserReq o fuel (sflows (pairsOf .user pl))).2.2 = none →
         (stxn ⟨sflows (pairsOf .sysStart pl), sflows (pairsOf .user pl), sflows (pairsOf .sysEnd pl)⟩ o fuel .req).answered
-          = (suserReq o fuel (sflows (pairsOf .user pl))).2.1 ∧
-        (stxn ⟨sflows (pairsOf .sysStart pl), sflows (pairsOf .user pl), sflows (pairsOf .sysEnd pl)⟩ o fuel .req).pending
-          = (suserReq o fuel (sflows (pairsOf .user pl))).2.2.2 ∨
+          = (suserReq o fuel (sflows (pairsOf .user pl))).2.1 ∨
         (suserReq o fuel (sflows (pairsOf .user pl))).2.1 = none := by
       intro ha hbe
       unfold stxn
       simp only [ha, Option.isSome_none, Bool.false_eq_true, if_false]
-      rcases hss : suserReq o fuel (sflows (pairsOf .user pl)) with ⟨st, ssc, se, sp⟩
+      rcases hss : suserReq o fuel (sflows (pairsOf .user pl)) with ⟨st, ssc, se⟩
       rw [hss] at hbe
       simp only at hbe ⊢
       subst hbe
       simp only [Option.isSome_none, Bool.false_eq_true, if_false]
       split
-      · exact Or.inl ⟨rfl, rfl⟩
+      · exact Or.inl rfl
       · cases ssc with
         | none => exact Or.inr rfl
-        | some q => obtain ⟨sf, k⟩ := q; exact Or.inl ⟨rfl, rfl⟩
+        | some q => obtain ⟨sf, k⟩ := q; exact Or.inl rfl
     apply req_eq o fuel _ _ _ hs hu hfi hqs hqf
-    · intro ha
-      cases hbe : (suserReq o fuel (sflows (pairsOf .user pl))).2.2.1 with
-      | some e => exact hshape.2.1 (hshape.1 (by simp [hbe]))
-      | none =>
-        rcases hans ha hbe with ⟨h4, h5⟩ | h4
-        · cases hsc : (suserReq o fuel (sflows (pairsOf .user pl))).2.1 with
-          | none => exact hshape.2.1 hsc
-          | some q =>
-            obtain ⟨sf, k⟩ := q
-            rw [← h5]
-            exact (finding_none hf (by rw [h4, hsc])).1
-        · exact hshape.2.1 h4
-    · intro ha sf k hsc p hp hname
-      have hbe : (suserReq o fuel (sflows (pairsOf .user pl))).2.2.1 = none := by
-        cases hbe : (suserReq o fuel (sflows (pairsOf .user pl))).2.2.1 with
-        | none => rfl
-        | some e => have := hshape.1 (by simp [hbe]); rw [hsc] at this; simp at this
-      rcases hans ha hbe with ⟨h4, _⟩ | h4
-      · have hfn := finding_none hf (by rw [h4, hsc])
-        -- the answering reference flow is the view of exactly one user pair: `p`
-        have hmem := hshape.2.2 sf k hsc
-        obtain ⟨q, hq', hqe⟩ := List.mem_map.mp hmem
-        have hpq : p = q := hinj p hp q hq' (by rw [hname, ← hqe]; rfl)
-        subst hpq
-        have hres : sf.res = p.1.res := by rw [← hqe]; rfl
-        rw [hres] at hfn
-        exact ⟨hfn.2.1, hfn.2.2.1, hfn.2.2.2⟩
-      · rw [hsc] at h4; simp at h4
+    intro ha sf k hsc p hp hname
+    have hbe : (suserReq o fuel (sflows (pairsOf .user pl))).2.2 = none := by
+      cases hbe : (suserReq o fuel (sflows (pairsOf .user pl))).2.2 with
+      | none => rfl
+      | some e => have := hshape.1 (by simp [hbe]); rw [hsc] at this; simp at this
+    rcases hans ha hbe with h4 | h4
+    · have hfn := finding_none hf (by rw [h4, hsc])
+      -- the answering reference flow is the view of exactly one user pair: `p`
+      have hmem := hshape.2 sf k hsc
+      obtain ⟨q, hq', hqe⟩ := List.mem_map.mp hmem
+      have hpq : p = q := hinj p hp q hq' (by rw [hname, ← hqe]; rfl)
+      subst hpq
+      have hres : sf.res = p.1.res := by rw [← hqe]; rfl
+      rw [hres] at hfn
+      exact hfn
+    · rw [hsc] at h4; simp at h4
 
 end LunarVerif.C04
